@@ -181,8 +181,9 @@ def run_property(P, tier, seed, replay=None):
     if harness is None:
         rp = vlib.write_replay(P.id, "build", {"property": P.id, "broken_obligation": "harness does not build against /repo", "log": hout[-3000:]})
         print("VIOLATION property=%s replay=%s no-failing-input-found" % (P.id, rp))
-        vlib.write_evidence(P.id, tier, seed, {"obligations": n_obl, "discharged": 0, "checker_cmd": "make -C coq theories/Props/%s.vo" % P.id,
-                            "trusted_base": TRUSTED_BASE, "explanation": "harness build failed"}, P.assumptions, time.time() - t0, 1)
+        vlib.write_evidence(P.id, tier, seed, {"obligations": n_obl + 1, "discharged": n_dis, "checker_cmd": "make -C coq theories/Props/%s.vo" % P.id,
+                            "trusted_base": TRUSTED_BASE, "explanation": "the harness does not build against /repo (one more obligation, not discharged)",
+                            "broken_obligations": ["harness build"], "evaluations": 0, "distinct_nontrivial": 0, "samples": []}, P.assumptions, time.time() - t0, 1)
         return 1
     bins = [("debug", harness)]
     if P.release_too:
